@@ -569,7 +569,8 @@ func (x *Exec) callContract(st *State, fi *FuncInfo, args []Val, pos token.Pos, 
 	}
 	for k, g := range fi.Ens {
 		c := fi.C.Ensures[k]
-		if !x.tagOn(c.Tags) {
+		if !x.tagOn(c.Tags) || hasTag(c.Tags, "leaf") {
+			// [X,leaf]: proved for the function itself under X, never handed to callers (keeps their queries small)
 			continue
 		}
 		t := x.evalGen(g, st, x.genArgs(g, args, &res, olds, nil, st))
@@ -1499,4 +1500,13 @@ func (x *Exec) baseHeapOf(s *Sort) *Term {
 	}
 	tmp := &State{Heap: map[*Sort]*Term{}}
 	return x.heapOf(tmp, s)
+}
+
+func hasTag(tags []string, t string) bool {
+	for _, x := range tags {
+		if x == t {
+			return true
+		}
+	}
+	return false
 }
